@@ -1,6 +1,15 @@
 ------------------------------- MODULE MCKes -------------------------------
 (* Exhaustive configuration of Kes (C12, C13): every evolution history of   *)
 (* every depth in Depths, sum and compact, with signatures made at any      *)
-(* period and verified at every in-range period.                            *)
+(* period and verified at every in-range period.  The only restriction      *)
+(* against Kes!Next: a key is generated once, from the initial state (a      *)
+(* second keygen just restarts the same state graph from its root).          *)
 EXTENDS Kes, TLC
+
+FirstKeyGen(d, c) == depth = 0 /\ KeyGen(d, c)
+MCNext == \/ \E d \in Depths : \E c \in BOOLEAN : FirstKeyGen(d, c)
+          \/ UpdateOk
+          \/ UpdateFail
+          \/ \E m \in Msgs : Sign(m)
+          \/ \E t \in Periods : Verify(t)
 =============================================================================
